@@ -11,7 +11,9 @@ for m in $src/m*; do
   ( cd $d && git apply $m/patch.diff ) || { echo "patch does not apply"; rm -rf $d; continue; }
   ( cd $d && PYTHONPATH=$d PYTHONWARNINGS=ignore timeout 300 /venv/bin/python $m/demo.py >/dev/null 2>&1; echo "demo on patched: rc=$?" )
   ( MOLLI_REPO=$d timeout 900 /verif/tools/baseline.sh | tail -1 )
-  MOLLI_REPO=$d timeout 1500 /verif/check $pid 2>&1 | tail -3
+  MOLLI_REPO=$d timeout 1500 /verif/check $pid > /tmp/st_${pid}_$k.log 2>&1
+  echo "VIOLATION lines: $(grep -c '^VIOLATION' /tmp/st_${pid}_$k.log) (of which no-failing-input-found: $(grep '^VIOLATION' /tmp/st_${pid}_$k.log | grep -c 'no-failing-input-found'))"
+  tail -3 /tmp/st_${pid}_$k.log; rm -f /tmp/st_${pid}_$k.log
   rm -rf $d
 done
 # restore Gen/ snapshots and evidence to the /repo state
